@@ -1,13 +1,13 @@
 // crate: actix-router
 // module: resource::verif_kani
 //
-// C10 O-2 (three-way agreement for static / prefix patterns), C10 O-3 (u16 offset arithmetic of Path),
-// C09 O-1/O-2 (Router picks the FIRST registered match whose guard accepts; nested descent).
+// C10 O-2 (three-way agreement for static / prefix patterns, nested descent), C10 O-3 (u16 offset
+// arithmetic of Path).
 // ResourceDefs are built field by field with PatternType::Static: `ResourceDef::new` makes the regex
 // engine reachable and the Kani compiler crashes on it (DESIGN.md §2.5).
 use super::*;
 include!(concat!(env!("VERIF_HARNESS"), "/common/tracing_stub.rs"));
-use crate::{router::Router, Path};
+use crate::Path;
 use core::mem::forget;
 
 const MAXP: usize = 6;
@@ -86,61 +86,10 @@ fn three_way(pattern: &'static str, n: usize) {
 }
 
 // ---------------------------------------------------------------------------------------------
-// C09: router of three static resources; symbolic path; symbolic guard verdict per route.
-fn router_lemma(n: usize) {
-    let bytes: [u8; MAXP] = kani::any();
-    let path = ascii_path(&bytes, n);
-    // registration order matters: a prefix that also covers the later exact routes comes first
-    const PATS: [(&str, bool); 3] = [("/a", true), ("/a/b", false), ("/ab", false)];
-    let guards: [bool; 3] = kani::any();
-    let mut b = Router::<usize, usize>::build();
-    let mut i = 0;
-    while i < 3 {
-        b.push(static_def(PATS[i].0, PATS[i].1, i as u16), 100 + i, i);
-        i += 1;
-    }
-    let router = b.finish();
-    let mut p = Path::new(path);
-    let mut calls = [0u8; 3];
-
-    let r = router.recognize_fn(&mut p, |res, ctx| {
-        calls[*ctx] += 1;
-        assert!(res.skip == 0, "guards see the path before it is advanced");
-        guards[*ctx]
-    });
-
-    // reference: first route in registration order whose pattern matches and whose guard accepts
-    let mut want: Option<usize> = None;
-    let mut i = 0;
-    while i < 3 {
-        if want.is_none() {
-            let m = reference_match(PATS[i].0.as_bytes(), PATS[i].1, &bytes[..n]);
-            if m.is_some() && guards[i] {
-                want = Some(i);
-            }
-            // a guard is consulted only for a route whose pattern matched, and at most once
-            assert!(calls[i] == m.is_some() as u8, "guard consulted exactly when the pattern matched");
-        } else {
-            assert!(calls[i] == 0, "routes after the winner are never consulted");
-        }
-        i += 1;
-    }
-    match (&r, want) {
-        (None, None) => assert!(p.skip == 0 && p.segments.is_empty(), "no match: path untouched"),
-        (Some((val, id)), Some(w)) => {
-            assert!(**val == 100 + w && id.0 == w as u16, "the FIRST matching+accepted route wins");
-            assert!(p.skip as usize == PATS[w].0.len(), "skip advanced by the winner's matched length only");
-        }
-        _ => assert!(false, "router result != first-match reference"),
-    }
-    kani::cover!(want == Some(1) && !guards[0], "first route's guard rejects, second wins");
-    kani::cover!(want == Some(0) && n > 2, "prefix route shadows a later exact route");
-    kani::cover!(want == Some(2), "third route");
-    kani::cover!(want.is_none() && calls[0] == 1, "all matching routes rejected by guards");
-    kani::cover!(true, "harness end reached");
-    forget(router);
-    forget(p);
-}
+// NOT harnessed (measured, see DESIGN.md §4 C09): `Router::recognize_fn`.  The router keeps its routes in
+// a `Vec<(ResourceDef, T, U)>`; a ResourceDef read back from that heap allocation is a byte-level
+// object for CBMC, and even ONE route against a 2-byte path did not finish in 20 minutes (the same
+// ResourceDef on the stack: 12-19 s for the three matching entry points).
 
 /// nested descent: after a prefix match the inner router sees only the unprocessed rest; skips add up.
 fn nested_lemma(n: usize) {
@@ -239,31 +188,7 @@ fn c10_path_offsets() {
 #[kani::proof]
 #[kani::stub(tracing::callsite::DefaultCallsite::register, stub_tracing_register)]
 #[kani::unwind(18)]
-fn c09_router_first_match_len0_3() {
-    router_lemma(0);
-    router_lemma(2);
-    router_lemma(3);
-}
-
-#[kani::proof]
-#[kani::stub(tracing::callsite::DefaultCallsite::register, stub_tracing_register)]
-#[kani::unwind(18)]
-fn c09_router_first_match_len4() {
-    router_lemma(4);
-}
-
-#[kani::proof]
-#[kani::stub(tracing::callsite::DefaultCallsite::register, stub_tracing_register)]
-#[kani::unwind(18)]
-fn c09_router_first_match_len6_t() {
-    router_lemma(5);
-    router_lemma(6);
-}
-
-#[kani::proof]
-#[kani::stub(tracing::callsite::DefaultCallsite::register, stub_tracing_register)]
-#[kani::unwind(18)]
-fn c09_nested_descent() {
+fn c10_nested_descent() {
     nested_lemma(2);
     nested_lemma(4);
     nested_lemma(5);
@@ -275,3 +200,4 @@ mod playback {
     use super::*;
     include!(concat!(env!("VERIF_PLAYBACK"), "/actix_router__resource.rs"));
 }
+
